@@ -277,8 +277,24 @@ func runC17(w *World, r *Report) {
 					idxOK = true
 				}
 			}
+			// the converter is total: every chunk of tool i — an empty one included — becomes a frame carrying
+			// tool i's message; no chunk is dropped (ErrNoValue) or turned into an error
+			instrs(lit, func(li ssa.Instruction) {
+				ret, ok := li.(*ssa.Return)
+				if !ok {
+					return
+				}
+				if !isNilConst(ret.Results[1]) {
+					good, det = false, det+" the converter can return an error / skip a chunk (a tool whose whole output is empty gets no answer in the streamed form, while Invoke answers it)"
+					return
+				}
+				skip, _ := pathQuery{fn: lit, from: lit.Blocks[0].Instrs[0], goal: func(x ssa.Instruction) bool { return x == li }, avoid: func(x ssa.Instruction) bool { return isCallTo(x, toolMsg) }}.exists()
+				if skip {
+					good, det = false, det+" a return of the converter is reachable without building the ToolMessage"
+				}
+			})
 			if !idxOK {
-				good, det = false, "the converted chunk is not placed at the task's own index"
+				good, det = false, det+" the converted chunk is not placed at the task's own index"
 			}
 			if !idOK {
 				good, det = false, det+" the call id is not the task's own"
@@ -299,6 +315,14 @@ func runC17(w *World, r *Report) {
 			r.Fail("C17.loopvar", w.fname(origin(fn))+": "+c, fn.Pos(), "a function literal created in a loop captures the loop's own variable (one variable for all iterations under go 1.18 semantics): when it runs later every instance sees the last value")
 		}
 	}
+	ncell := 0
+	for _, fn := range w.RepoFuncs("compose", "schema", "flow", "internal", "components") {
+		ncell += len(loopCarriedCells(fn))
+		for _, c := range loopVarAddrEscapes(w, fn) {
+			r.Fail("C17.loopvar", w.fname(origin(fn))+": "+c, fn.Pos(), "the address of a loop variable (one variable for all iterations under go 1.18 semantics) is kept beyond the iteration: everything that kept it later reads the last element — e.g. every unknown-tool handler call gets the name of the last tool call")
+		}
+	}
+	r.OK("C17.loopvar", "loop-carried variables", gen.Pos(), fmt.Sprintf("%d loop-carried variables inspected for escaping addresses", ncell))
 	r.OK("C17.loopvar", "literals created in loops", invoke.Pos(), fmt.Sprintf("%d function literals inspected in compose/schema/flow/internal/components", nlit))
 
 	// ---- err-before-use
